@@ -21,4 +21,20 @@ var checks = map[string]check{
 		Rule:   "multi-file IDL models drawn by rapid (1-4 files, include DAG with diamonds, same base names in different directories, typedef chains, constants in every spelling); non-trivial = program with a typedef chain of length >=2 crossing a file boundary and >=1 identifier constant reference, distinct by program text; order test: non-trivial = >=2 files and a different definition order",
 		Assume: []string{"include literals are spelled so that thriftgo's lookup order (working directory first, including file's directory second) finds the intended file", "global names are unique over the whole program, so two includes with the same prefix never both define a referenced name"},
 	},
+	"C17": {
+		ID: "C17", Pkg: "c17",
+		Jobs: []job{
+			{Run: "^TestDumpRoundTrip$", Quick: 1200, QShards: 10, Thor: 40000, TShards: 15},
+		},
+		Rule:   "IDL models (1-3 files) with annotations on every node kind, literals over an alphabet with both quotes, &, <, >, #, backslash pairs and HTML entities, negative ids, nested constant literals, doubles across magnitudes, cpp_include; parsed by the real front end, every file dumped with dump.DumpIDL and the dumped program re-parsed, re-checked and compared file by file; non-trivial = program with >=1 literal containing a quote character and >=1 containing '&' or a backslash, distinct by text",
+		Assume: []string{"comments and cpp_type are not compared (the property does not list them)", "a double with an integral value may come back as an integer constant of equal value"},
+	},
+	"C12": {
+		ID: "C12", Pkg: "c12",
+		Jobs: []job{
+			{Run: "^TestAssembly$", Quick: 5000, QShards: 6, Thor: 72000, TShards: 14},
+		},
+		Rule:   "histories of 1-5 Feed calls of 0-6 items (named file / unnamed patch / named patch) over names {a.go, a_1.go, a_2.go, d/a.go, b} followed by BuildResponse, judged against an independent reference model of the documented assembly rules; non-trivial = not loose, has a rename and an asserted patch on a file fed earlier than the renamed one, distinct by hash of the history",
+		Assume: []string{"fresh names of renamed files and output order are not asserted, only uniqueness and intact content", "named patches aimed at a contested, unowned or not-yet-fed name are the code's documented FIXME: only the invariants are asserted for those histories", "patch contents never contain markers"},
+	},
 }
